@@ -737,6 +737,15 @@ fn corpus() -> Vec<Case> {
         Case { files: vec!["directive @r(x: In) on FIELD_DEFINITION\ninput In { o: Obj }\ntype Obj { f: Int @r }\ntype Query { a: Int }\n".into()], mode: "junk".into(), rule: None, class: None, features: vec!["corpus".into()] },
         m("input In { k: String! v: Int }\ndirective @ar(i: In) on OBJECT\ntype Query @ar(i: {k: \"a\", zz: 1}) { a: Int }\n", "directive-args", "input-object-unknown-field(optional-field-omitted)"),
         m("directive @d(a: Int) on OBJECT\ntype Query @d(a: 1, a: \"x\") { f: Int }\n", "directive-args", "duplicate-argument-second-ill-typed"),
+        // fix e3584a3: an Int argument of a directive application is a signed 32-bit value (spec 3.5.1)
+        v("directive @d(n: Int!, l: [Int], fl: Float, id: ID) on OBJECT\ntype Query @d(n: -2147483648, l: [2147483647, -0], fl: 4294967296, id: 12345678901234567890) { f: Int }\n"),
+        v("input In { v: Int w: Float }\ndirective @d(i: In, l: [[Int!]]) on FIELD_DEFINITION\ntype Query { f: Int @d(i: {v: 2147483647, w: -9223372036854775809}, l: -2147483648) }\n"),
+        m("directive @d(n: Int) on OBJECT\ntype Query @d(n: 4294967296) { f: Int }\n", "directive-args", "int-beyond-32-bit"),
+        m("directive @d(n: Int!) on FIELD_DEFINITION\ntype Query { f: Int @d(n: 2147483648) }\n", "directive-args", "int-beyond-32-bit"),
+        m("directive @d(n: Int) on ARGUMENT_DEFINITION\ntype Query { f(a: Int @d(n: -2147483649)): Int }\n", "directive-args", "int-beyond-32-bit"),
+        m("directive @d(l: [Int]) on OBJECT\ntype Query @d(l: [1, 3000000000]) { f: Int }\n", "directive-args", "list-item-int-beyond-32-bit"),
+        m("directive @d(l: [[Int]]) on OBJECT\ntype Query @d(l: 12345678901234567890) { f: Int }\n", "directive-args", "single-value-for-list-int-beyond-32-bit"),
+        m("input In { v: Int }\ndirective @d(i: In) on ENUM_VALUE\nenum E { A @d(i: {v: -9223372036854775809}) }\ntype Query { f: E }\n", "directive-args", "input-object-field-int-beyond-32-bit"),
         v("interface I { f: Int }\ntype Query implements I { f(x: Int! = 1): Int }\n"),
         v("directive @d(f: Float, i: ID, l: [Int]) on OBJECT\ntype Query @d(f: 1, i: 2, l: 3) { a: Int }\n"),
         v("interface A { a: A }\ninterface B implements A { a: B }\ntype Query implements B & A { a: Query }\n"),
